@@ -56,12 +56,24 @@ var c20MultiLine = []string{
 	"import sys PF04\nprint(${{ toJSON(github) }})\nprint(sys.argv) PF05\n",
 }
 
+func init() {
+	// two scripts of about 20 KiB each (below the 64 KiB of a pipe, above any small-input shortcut)
+	pad := strings.Repeat("# padding padding padding padding padding padding padding padding padding\n", 270)
+	c20Big = []string{
+		"echo $BIG_ONE SC2086\n" + pad + "echo end of the first big script SC2116\n",
+		"echo $BIG_TWO SC2086\n" + pad + "echo end of the second big script SC2005\n",
+	}
+}
+
+var c20Big []string
+
 var c20Shells = []string{"", "", "", "bash", "sh", "python", "pwsh", "bash -e {0}", "python {0}", "sh -x {0}", "cmd", "bashful", "pythonic", "shx"}
 
 func c20Shell(c *Chooser, label string) string { return c20Shells[c.Int(label, len(c20Shells))] }
 
 func genC20Workflow(c *Chooser, wi int) string {
 	var b strings.Builder
+	bigWorld := c.Weighted("world.bigscripts", 1, 40) // a workflow with scripts of about 20 KiB
 	b.WriteString("on: push\n")
 	if s := c20Shell(c, "world.wfshell"); s != "" && c.Weighted("world.haswfshell", 1, 3) {
 		fmt.Fprintf(&b, "defaults:\n  run:\n    shell: %s\n", s)
@@ -87,13 +99,22 @@ func genC20Workflow(c *Chooser, wi int) string {
 		}
 		b.WriteString("    steps:\n")
 		nsteps := 1 + c.Int("world.nsteps", 4)
+		many := false
+		if wi == 0 && j == 0 && c.Weighted("world.manysteps", 1, 25) {
+			nsteps = 40 + c.Int("world.nsteps2", 30) // a long job: dozens of scripts in one file
+			many = true
+		}
 		for s := 0; s < nsteps; s++ {
 			if c.Weighted("world.usesstep", 1, 6) {
 				b.WriteString("      - uses: actions/checkout@v4\n")
 				continue
 			}
-			if c.Weighted("world.multiline", 1, 3) {
+			big := bigWorld && c.Weighted("world.bigscript", 1, 3)
+			if big || c.Weighted("world.multiline", 1, 3) {
 				sc := c20MultiLine[c.Int("world.mscript", len(c20MultiLine))]
+				if big {
+					sc = c20Big[c.Int("world.bigsel", len(c20Big))]
+				}
 				b.WriteString("      - run: |\n")
 				for _, l := range strings.Split(strings.TrimSuffix(sc, "\n"), "\n") {
 					if l == "" {
@@ -119,6 +140,9 @@ func genC20Workflow(c *Chooser, wi int) string {
 						fmt.Fprintf(&b, "      - run: %s\n", sc)
 					}
 				}
+			}
+			if many && !c.Weighted("world.manyshell", 1, 8) {
+				continue // most steps of the long job use the job's shell
 			}
 			if s := c20Shell(c, "world.stepshell"); s != "" {
 				if c.Weighted("world.shellfirst", 1, 4) {
@@ -412,7 +436,14 @@ func (c20) Eval(c *Chooser, env *Env) *Outcome {
 	var faulted []string
 	fatalExpected := false
 	unlisted := false
-	if withFaults && len(expect) > 0 {
+	if withFaults && len(expect) > 0 && c.Weighted("fault.busyonce", 1, 10) {
+		// the executable of a tool is being replaced while the run starts: the first attempt to
+		// start it fails (ETXTBSY), whichever script that is - a tool that cannot be started
+		tool := expect[c.Int("fault.busytool", len(expect))].Tool
+		tools.BusyOnce = map[string]bool{tool: true}
+		faulted = append(faulted, fmt.Sprintf("%s@first-start=%s", tool, TFBusyOnce))
+		fatalExpected = true
+	} else if withFaults && len(expect) > 0 {
 		n := 1 + c.Int("fault.n", 2)
 		for i := 0; i < n; i++ {
 			e := expect[c.Int("fault.inv", len(expect))]
